@@ -259,7 +259,20 @@ class Ctx:
         tb += [t for t in extra_trusted if t not in tb]
         self.cov["trusted_base"] = tb
         self.cov["property_theorems"] = self.cov.get("property_theorems", []) + [x for x in names if re.match(r"C\d\d_", x)]
+        if self.tier == "thorough" and os.environ.get("VERIF_NO_COQCHK") != "1":
+            self.coqchk(prop_v)
         return True
+
+    def coqchk(self, prop_v):
+        """Thorough tier: the independent checker re-checks the compiled statement file and everything it depends on."""
+        logical = "Verif." + prop_v[:-2].replace("/", ".")
+        rc, out = self.sh(["coqchk", "-silent", "-o", "-Q", COQ, "Verif", logical], timeout=3000, cwd=COQ)
+        m = re.search(r"\* Axioms:(.*?)\n\s*\n\* Constants", out, re.S)
+        ax = " ".join(m.group(1).split()) if m else "?"
+        self.cov.setdefault("coqchk", []).append({"library": logical, "rc": rc, "axioms": ax})
+        self.cov["trusted_base"].append("coqchk -o %s: rc=%d, axioms: %s" % (logical, rc, ax))
+        if rc != 0:
+            self.violation({"kind": "proof-broken", "what": "coqchk rejected " + logical, "log_tail": out[-3000:]}, tag="coqchk", no_input=True)
 
     def corr(self, harness_bin, args, cases_name="cases.v", timeout=900, describe=None):
         """Runs the harness (implementation side; writes cases.v + stats.json), evaluates the model on the same cases in Coq."""
